@@ -84,6 +84,7 @@ func C01(ctx *core.Ctx, r *core.Report) {
 	c01PhaseOrder(ctx, r)
 	c01RecursionGuard(ctx, r)
 	c01ConfigInheritance(ctx, r)
+	r.Count("instances:memo-key-complete(tables found)", memoKeyComplete(ctx, r, scopeFuncs(ctx, "meta", "resolver.go", "util.go", "find.go", "builder.go")))
 }
 
 // c01CloneIndependence: typeOnly restricts the report to the dtype field (C02).
@@ -452,6 +453,7 @@ func C02(ctx *core.Ctx, r *core.Report) {
 	c02Inheritance(ctx, r)
 	c02MixinCoverage(ctx, r)
 	c02WhenPerNode(ctx, r)
+	r.Count("instances:memo-key-complete(tables found)", memoKeyComplete(ctx, r, scopeFuncs(ctx, "meta", "compile.go", "core.go", "core_gen.go", "util.go")))
 }
 
 func c02Inheritance(ctx *core.Ctx, r *core.Report) {
@@ -485,14 +487,50 @@ func c02Inheritance(ctx *core.Ctx, r *core.Report) {
 		}
 		okc, msg := set != nil, "compileType no longer inherits the "+spec.what+" of the typedef"
 		if okc {
-			guards := 0
+			// the leaf being compiled: the Leafable parameter
+			var leafParam *ssa.Parameter
+			for _, p := range ct.Params {
+				if n := core.NamedOf(p.Type()); n != nil && n.Obj().Name() == "Leafable" {
+					leafParam = p
+				}
+			}
+			guards, leafHasNone := 0, false
 			for _, pc := range core.PathConds(set.Block()) {
 				for _, c := range core.CallSites(ct) {
-					if m := core.IfaceMethod(c); m != nil && m.Name() == spec.guard && dependsOn(pc.V, c.Value(), 0) {
-						guards++
+					isGuard := false
+					if m := core.IfaceMethod(c); m != nil && m.Name() == spec.guard {
+						isGuard = true
 					}
-					if cal := core.StaticCallee(c); cal != nil && cal.Name() == spec.guard && dependsOn(pc.V, c.Value(), 0) {
-						guards++
+					if cal := core.StaticCallee(c); cal != nil && cal.Name() == spec.guard {
+						isGuard = true
+					}
+					if !isGuard || !dependsOn(pc.V, c.Value(), 0) {
+						continue
+					}
+					guards++
+					// is this the test that the LEAF states none, on the side where it states none?
+					if leafParam == nil || !c.Common().IsInvoke() || !core.IsParam(c.Common().Value, leafParam) {
+						continue
+					}
+					switch cond := pc.V.(type) {
+					case *ssa.BinOp: // Units() == ""
+						other := cond.Y
+						if core.Strip(cond.Y) == c.Value() {
+							other = cond.X
+						}
+						if sv, isStr := core.ConstString(other); isStr && sv == "" {
+							if (cond.Op == token.EQL) == pc.True {
+								leafHasNone = true
+							}
+						}
+					case *ssa.UnOp: // !HasDefault()
+						if cond.Op == token.NOT && pc.True {
+							leafHasNone = true
+						}
+					default: // HasDefault() on the false edge
+						if pc.V == c.Value() && !pc.True {
+							leafHasNone = true
+						}
 					}
 				}
 			}
@@ -502,6 +540,8 @@ func c02Inheritance(ctx *core.Ctx, r *core.Report) {
 			}
 			if guards < want {
 				okc, msg = false, fmt.Sprintf("the inherited %s is installed without testing that the leaf states none (explicit value must win): %d of %d guards found", spec.what, guards, want)
+			} else if !leafHasNone {
+				okc, msg = false, fmt.Sprintf("the typedef's %s is installed without the test that the leaf itself states none, on the side where it states none: a %s written on the leaf (or on a nearer typedef) is overwritten by the one of the typedef further away", spec.what, spec.what)
 			}
 			// only outside unions
 			if !instrDominates(mx[0], set) {
